@@ -663,6 +663,9 @@ class Category(DataType, dtypes.Category):
 
     def coerce_value(self, value: Any) -> Any:
         """Coerce an value to a particular type."""
+        if pd.api.types.is_scalar(value) and pd.isna(value):
+            # missing values stay missing in a categorical
+            return value
         if value not in self.categories:  # type: ignore
             raise TypeError(
                 f"value {value} cannot be coerced to type {self.type}"
